@@ -3,10 +3,481 @@
 package dnsforward
 
 import (
+	"context"
+	"crypto/tls"
+	"encoding/base64"
+	"encoding/binary"
+	"errors"
+	"fmt"
+	"io"
+	"math/rand"
+	"net"
+	"net/http"
+	"net/http/httptest"
+	"net/netip"
+	"net/url"
+	"strings"
 	"testing"
+	"time"
 
-	"github.com/AdguardTeam/AdGuardHome/internal/verifkit"
+	"github.com/AdguardTeam/dnsproxy/proxy"
+	"github.com/AdguardTeam/dnsproxy/upstream"
+	"github.com/AdguardTeam/golibs/logutil/slogutil"
+	"github.com/miekg/dns"
+	"github.com/quic-go/quic-go"
 )
 
-// c16Calibrate is filled in below.
-func c16Calibrate(t *testing.T, rep *verifkit.Report) {}
+// Calibration: the sweep crafts proxy.DNSContext values by hand.  This part
+// lets real transports (DoT and DoQ listeners of a dnsproxy instance, a TLS
+// and a plain net/http server behind a ServeMux with AdGuard Home's two DoH
+// patterns) deliver contexts for inputs a real client sent, and checks that
+//
+//   - the fields the extraction reads (server name, decoded path, Host, TLS
+//     state) are what the crafted context of the same inputs holds;
+//   - the product gives the same outcome on the delivered and on the crafted
+//     context;
+//   - the outcome on the delivered context satisfies the oracle.
+
+// c16Delivery is one context handed over by the proxy.
+type c16Delivery struct {
+	pctx *proxy.DNSContext
+	done chan struct{}
+}
+
+// c16Recorder is the proxy's pre-request hook during calibration: it hands
+// the context to the monitor, waits until the monitor is done with it, and
+// answers the request itself.
+type c16Recorder struct {
+	ch chan *c16Delivery
+}
+
+func (r *c16Recorder) HandleBefore(_ *proxy.Proxy, pctx *proxy.DNSContext) (err error) {
+	d := &c16Delivery{pctx: pctx, done: make(chan struct{})}
+	r.ch <- d
+	<-d.done
+
+	return &proxy.BeforeRequestError{
+		Err:      errors.New("c16 calibration: answered by the recorder"),
+		Response: (&dns.Msg{}).SetRcode(pctx.Req, dns.RcodeSuccess),
+	}
+}
+
+const c16CalibTimeout = 10 * time.Second
+
+// c16CalibInput is what the client sends.
+type c16CalibInput struct {
+	c *c16Case
+	// wantPath is the decoded path the server must see.
+	wantPath string
+}
+
+func c16CalibMsg(i int) *dns.Msg {
+	return &dns.Msg{
+		MsgHdr:   dns.MsgHdr{Id: uint16(i), RecursionDesired: true},
+		Question: []dns.Question{{Name: fmt.Sprintf("calib%d.c16.example.", i), Qtype: dns.TypeA, Qclass: dns.ClassINET}},
+	}
+}
+
+// c16SendDoT sends one query over TLS with the given SNI.
+func c16SendDoT(addr, sni string, m *dns.Msg) (err error) {
+	cl := &dns.Client{Net: "tcp-tls", Timeout: c16CalibTimeout,
+		TLSConfig: &tls.Config{InsecureSkipVerify: true, ServerName: sni}}
+	_, _, err = cl.Exchange(m, addr)
+
+	return err
+}
+
+// c16SendDoQ sends one query over QUIC with the given SNI.
+func c16SendDoQ(addr, sni string, m *dns.Msg) (err error) {
+	ctx, cancel := context.WithTimeout(context.Background(), c16CalibTimeout)
+	defer cancel()
+
+	conn, err := quic.DialAddr(ctx, addr, &tls.Config{
+		InsecureSkipVerify: true,
+		ServerName:         sni,
+		NextProtos:         []string{"doq"},
+	}, nil)
+	if err != nil {
+		return fmt.Errorf("dialing: %w", err)
+	}
+	defer func() { _ = conn.CloseWithError(0, "") }()
+
+	st, err := conn.OpenStreamSync(ctx)
+	if err != nil {
+		return fmt.Errorf("opening stream: %w", err)
+	}
+	m.Id = 0
+	raw, err := m.Pack()
+	if err != nil {
+		return err
+	}
+	buf := make([]byte, 2+len(raw))
+	binary.BigEndian.PutUint16(buf, uint16(len(raw)))
+	copy(buf[2:], raw)
+	if _, err = st.Write(buf); err != nil {
+		return fmt.Errorf("writing: %w", err)
+	}
+	_ = st.Close()
+	_ = st.SetReadDeadline(time.Now().Add(c16CalibTimeout))
+	if _, err = io.ReadAll(st); err != nil {
+		return fmt.Errorf("reading: %w", err)
+	}
+
+	return nil
+}
+
+// c16ErrRedirected is returned when the ServeMux answered with a redirect
+// instead of passing the request on.
+var c16ErrRedirected = errors.New("redirected by the mux")
+
+// c16SendDoH sends one GET query with the raw request target, Host and SNI.
+func c16SendDoH(base, target, host, sni string, m *dns.Msg) (err error) {
+	raw, err := m.Pack()
+	if err != nil {
+		return err
+	}
+	bu, err := url.Parse(base)
+	if err != nil {
+		return err
+	}
+	pathPart, _, _ := strings.Cut(target, "?")
+	u := &url.URL{Scheme: bu.Scheme, Host: bu.Host, Opaque: pathPart,
+		RawQuery: "dns=" + base64.RawURLEncoding.EncodeToString(raw)}
+	req := &http.Request{Method: http.MethodGet, URL: u, Host: host, Header: http.Header{}}
+	req.Header.Set("Accept", "application/dns-message")
+	cl := &http.Client{
+		Timeout:       c16CalibTimeout,
+		CheckRedirect: func(*http.Request, []*http.Request) error { return http.ErrUseLastResponse },
+		Transport: &http.Transport{
+			TLSClientConfig:   &tls.Config{InsecureSkipVerify: true, ServerName: sni},
+			DisableKeepAlives: true,
+		},
+	}
+	resp, err := cl.Do(req)
+	if err != nil {
+		return err
+	}
+	defer resp.Body.Close()
+	_, _ = io.Copy(io.Discard, resp.Body)
+	switch {
+	case resp.StatusCode >= 300 && resp.StatusCode < 400:
+		return c16ErrRedirected
+	case resp.StatusCode != http.StatusOK:
+		return fmt.Errorf("http status %d", resp.StatusCode)
+	}
+
+	return nil
+}
+
+// c16Sendable tells whether Go's TLS client puts the name into the SNI
+// extension verbatim (it drops IP addresses and trailing dots, and the server
+// side refuses what is not a DNS name in the loosest sense).
+func c16Sendable(name string) bool {
+	if name == "" {
+		return true
+	}
+	if strings.HasSuffix(name, ".") || strings.ContainsAny(name, "\x00[]%:") {
+		return false
+	}
+	if _, err := netip.ParseAddr(name); err == nil {
+		return false
+	}
+	for i := 0; i < len(name); i++ {
+		if name[i] <= ' ' || name[i] >= 0x7f {
+			return false
+		}
+	}
+
+	return true
+}
+
+// c16CalibGen draws a calibration input: a generated case whose inputs a Go
+// client can put on the wire unchanged.
+func c16CalibGen(rng *rand.Rand, i int) (in *c16CalibInput) {
+	for {
+		c := c16Gen(rng)
+		switch c.Proto {
+		case "udp", "tcp", "dnscrypt":
+			continue
+		}
+		// Spread over the transports evenly.
+		switch i % 4 {
+		case 0:
+			c.Proto = "tls"
+		case 1:
+			c.Proto = "quic"
+		default:
+			if c.Proto != "https" {
+				c.Proto = "https"
+				c.HasTLS = i%4 == 2
+				c.Path, _ = c16Path(rng)
+				c.Host = c.SNI
+				if rng.Intn(2) == 0 {
+					c.Host += ":443"
+				}
+				if !c.HasTLS {
+					c.SNI = ""
+				}
+			}
+		}
+		if !c16Sendable(c.SNI) {
+			continue
+		}
+		if c.Proto == "quic" && c.SNI == "" {
+			// quic-go fills in the dialled host then.
+			continue
+		}
+		in = &c16CalibInput{c: c}
+		if c.Proto != "https" {
+			c.Path, c.Target, c.Host, c.HasTLS = "", "", "", false
+			c.Gen = "calibration"
+
+			return in
+		}
+		// A request target net/http can send and parse back.
+		if c.Target == "" {
+			tg, ok := c16Target(rng, c.Path)
+			if !ok {
+				continue
+			}
+			c.Target = tg
+		}
+		c.Target, _, _ = strings.Cut(c.Target, "?")
+		if strings.HasPrefix(c.Target, "//") || strings.ContainsAny(c.Target, " \x00\r\n\t\x7f") {
+			continue
+		}
+		in.wantPath = c.Path
+		// The Host header must be something net/http sends.
+		if c.Host == "" || strings.ContainsAny(c.Host, " \x00\r\n\t/\\%@?#\"<>[]^`{|}") || !c16ASCII(c.Host) {
+			continue
+		}
+		c.Gen = "calibration"
+
+		return in
+	}
+}
+
+func c16ASCII(s string) bool {
+	for i := 0; i < len(s); i++ {
+		if s[i] <= ' ' || s[i] >= 0x7f {
+			return false
+		}
+	}
+
+	return true
+}
+
+// c16Calibrate runs the calibration subset.
+func c16Calibrate(t *testing.T, r *c16Runner) {
+	rep := r.rep
+	rng := rep.Rand("calibration")
+	n := 60
+	if rep.Tier == "thorough" {
+		n = 600
+	}
+
+	_, certPem, keyPem := createServerTLSConfig(t)
+	cert, err := tls.X509KeyPair(certPem, keyPem)
+	if err != nil {
+		rep.Inconcl("calibration: cannot build a certificate: " + err.Error())
+
+		return
+	}
+
+	rec := &c16Recorder{ch: make(chan *c16Delivery)}
+	lo := net.IP{127, 0, 0, 1}
+	dummy, err := upstream.AddressToUpstream("127.0.0.1:1", &upstream.Options{Timeout: time.Second})
+	if err != nil {
+		rep.Inconcl("calibration: cannot build an upstream: " + err.Error())
+
+		return
+	}
+	prx, err := proxy.New(&proxy.Config{
+		Logger:               slogutil.NewDiscardLogger(),
+		TLSListenAddr:        []*net.TCPAddr{{IP: lo}},
+		QUICListenAddr:       []*net.UDPAddr{{IP: lo}},
+		TLSConfig:            &tls.Config{Certificates: []tls.Certificate{cert}, MinVersion: tls.VersionTLS12},
+		UpstreamConfig:       &proxy.UpstreamConfig{Upstreams: []upstream.Upstream{dummy}},
+		BeforeRequestHandler: rec,
+	})
+	if err != nil {
+		rep.Inconcl("calibration: cannot create the proxy: " + err.Error())
+
+		return
+	}
+	ctx := context.Background()
+	if err = prx.Start(ctx); err != nil {
+		rep.Inconcl("calibration: cannot start the proxy: " + err.Error())
+
+		return
+	}
+	defer func() { _ = prx.Shutdown(ctx) }()
+
+	// The web server side of DoH, with the two patterns AdGuard Home registers.
+	mux := http.NewServeMux()
+	mux.HandleFunc("/dns-query", prx.ServeHTTP)
+	mux.HandleFunc("/dns-query/", prx.ServeHTTP)
+	dohTLS := httptest.NewUnstartedServer(mux)
+	dohTLS.TLS = &tls.Config{Certificates: []tls.Certificate{cert}}
+	dohTLS.StartTLS()
+	defer dohTLS.Close()
+	dohPlain := httptest.NewServer(mux)
+	defer dohPlain.Close()
+
+	dotAddr := prx.Addr(proxy.ProtoTLS).String()
+	doqAddr := prx.Addr(proxy.ProtoQUIC).String()
+
+	for i := 0; i < n; i++ {
+		in := c16CalibGen(rng, i)
+		c := in.c
+		m := c16CalibMsg(i)
+		errCh := make(chan error, 1)
+		go func() {
+			switch c.Proto {
+			case "tls":
+				errCh <- c16SendDoT(dotAddr, c.SNI, m)
+			case "quic":
+				errCh <- c16SendDoQ(doqAddr, c.SNI, m)
+			default:
+				base := dohPlain.URL
+				if c.HasTLS {
+					base = dohTLS.URL
+				}
+				errCh <- c16SendDoH(base, c.Target, c.Host, c.SNI, m)
+			}
+		}()
+
+		rep.Class("calibration:" + c.Proto)
+		var d *c16Delivery
+		var sendErr error
+		sent := false
+		select {
+		case d = <-rec.ch:
+		case sendErr = <-errCh:
+			sent = true
+		case <-time.After(c16CalibTimeout + 5*time.Second):
+			rep.Inconcl(fmt.Sprintf("calibration: request %d (%s) neither delivered nor refused", i, c.Proto))
+
+			return
+		}
+		if d == nil {
+			// The transport did not deliver the request.
+			switch {
+			case errors.Is(sendErr, c16ErrRedirected):
+				rep.Event("calibration_not_delivered:mux_redirect_of_unclean_path")
+			case c.Proto == "https" && sendErr != nil && strings.Contains(sendErr.Error(), "http status 404"):
+				rep.Event("calibration_not_delivered:mux_has_no_route")
+			default:
+				rep.Event("calibration_not_delivered:transport_refused")
+				rep.Sample(map[string]any{"calibration_refused": c, "error": fmt.Sprint(sendErr)})
+			}
+
+			continue
+		}
+
+		c16CalibJudge(r, in, d.pctx)
+		close(d.done)
+		if !sent {
+			select {
+			case <-errCh:
+			case <-time.After(c16CalibTimeout + 5*time.Second):
+				rep.Inconcl(fmt.Sprintf("calibration: request %d (%s) got no answer", i, c.Proto))
+
+				return
+			}
+		}
+	}
+
+	if got := rep.Events["calibration_real_and_crafted_agree"]; got < n/3 {
+		rep.Inconcl(fmt.Sprintf("calibration: only %d of %d real requests could be compared", got, n))
+	}
+	for _, p := range []string{"tls", "quic", "https"} {
+		if rep.Events["calibration_delivered:"+p] < n/20 {
+			rep.Inconcl(fmt.Sprintf("calibration: only %d contexts delivered over %s", rep.Events["calibration_delivered:"+p], p))
+		}
+	}
+}
+
+// c16CalibJudge compares a delivered context with the crafted one.
+func c16CalibJudge(r *c16Runner, in *c16CalibInput, pctx *proxy.DNSContext) {
+	rep := r.rep
+	c := in.c
+	rep.Event("calibration_delivered:" + c.Proto)
+
+	// What the transport delivered, read the way any consumer would.
+	got := map[string]any{"proto": string(pctx.Proto)}
+	want := map[string]any{"proto": string(c16Protos[c.Proto])}
+	switch c.Proto {
+	case "tls":
+		tc, ok := pctx.Conn.(interface{ ConnectionState() tls.ConnectionState })
+		if !ok {
+			rep.Inconcl(fmt.Sprintf("calibration: DoT context carries %T, not a TLS connection", pctx.Conn))
+
+			return
+		}
+		got["server_name"], want["server_name"] = tc.ConnectionState().ServerName, c.SNI
+	case "quic":
+		if pctx.QUICConnection == nil {
+			rep.Inconcl("calibration: DoQ context carries no QUIC connection")
+
+			return
+		}
+		got["server_name"], want["server_name"] = pctx.QUICConnection.ConnectionState().TLS.ServerName, c.SNI
+	case "https":
+		hr := pctx.HTTPRequest
+		if hr == nil {
+			rep.Inconcl("calibration: DoH context carries no HTTP request")
+
+			return
+		}
+		got["path"], want["path"] = hr.URL.Path, in.wantPath
+		got["host"], want["host"] = hr.Host, c.Host
+		got["has_tls_state"], want["has_tls_state"] = hr.TLS != nil, c.HasTLS
+		if hr.TLS != nil {
+			got["server_name"], want["server_name"] = hr.TLS.ServerName, c.SNI
+		}
+	}
+	for k, w := range want {
+		if got[k] != w {
+			rep.Event("calibration_field_differs:" + k)
+			rep.Inconcl(fmt.Sprintf("calibration: the %s transport delivered %s=%q for %q sent: crafted contexts do not model it",
+				c.Proto, k, got[k], w))
+			rep.Sample(map[string]any{"calibration_mismatch": c, "delivered": got, "crafted": want})
+
+			return
+		}
+	}
+	rep.Event("calibration_fields_as_crafted")
+
+	e := c16Expect(c)
+	rb, rd, ok := r.observeReal(c, pctx)
+	if !ok {
+		return
+	}
+	cb, _, ok := r.observe(c)
+	if !ok {
+		return
+	}
+	rep.Eval(true, "calibration|"+c.canon())
+	if rb.ID != cb.ID || rb.Failed != cb.Failed {
+		rep.Event("calibration_real_and_crafted_differ")
+		rep.Inconcl(fmt.Sprintf("calibration: outcome on the delivered context (%q, failed=%v) differs from the crafted one (%q, failed=%v)",
+			rb.ID, rb.Failed, cb.ID, cb.Failed))
+		rep.Sample(map[string]any{"calibration_outcome_mismatch": c, "real": rb, "crafted": cb})
+	} else {
+		rep.Event("calibration_real_and_crafted_agree")
+	}
+	if k, w := c16Judge(c, &e, rb); k != "" {
+		wit := r.witness(c, &e, rb, rd)
+		wit["context_delivered_by_real_transport"] = true
+		rep.Violate(k, w, wit)
+	}
+	switch {
+	case rb.Failed:
+		rep.Event("calibration_outcome:failed")
+	case rb.ID != "":
+		rep.Event("calibration_outcome:clientid")
+	default:
+		rep.Event("calibration_outcome:no_clientid")
+	}
+}
